@@ -75,6 +75,10 @@ def make_harness(params: Dict[str, Any]):
     return c11.make_harness(params, direction="enforces-inferred")
 
 
+# classes without a valid document among those with pinned primitive values (the structure shards mutate VALID documents)
+STRUCTURE_NOT_APPLICABLE = {("basic", "Empty_only"): "the pinned string value has one character; the class admits only the empty string"}
+
+
 def shards(tier: str) -> List[Dict[str, Any]]:
     out = c11.shards(tier)
     for model in c08.MODELS:
@@ -87,6 +91,8 @@ def shards(tier: str) -> List[Dict[str, Any]]:
             if kind != "class" or name in seen:
                 continue
             seen.add(name)
+            if (model, name) in STRUCTURE_NOT_APPLICABLE:
+                continue
             out.append({"name": f"structure:{model}:{name}", "params": {"kind": "structure", "model": model, "name": name},
                         "budget_s": 120 if tier == "quick" else 900, "per_path_timeout": 60})
     return out
